@@ -144,7 +144,7 @@ func cmdCheck(args []string) int {
 	workers := fs.Int("workers", 0, "worker count (default: cores)")
 	only := fs.String("only", "", "run only harnesses containing this substring")
 	solver := fs.String("solver", "z3", "z3|z3-new|cvc5")
-	timeout := fs.Int("timeout", 30000, "per-query timeout ms")
+	timeout := fs.Int("timeout", 5000, "per-query timeout ms of the incremental solver (a one-shot fallback gets 8x)")
 	noReplay := fs.Bool("no-replay", false, "skip native replay (debug)")
 	noEvidence := fs.Bool("no-evidence", false, "do not write the evidence file")
 	trace := fs.Bool("trace", false, "trace instructions")
